@@ -77,6 +77,8 @@ func (v c18Cfg) json() string {
 	switch v.Ext {
 	case "ok":
 		m["ext_config"] = map[string]interface{}{"@type": "type.googleapis.com/proto.Wallet", "address": "2d53vs8dwuYLhsBs45CpWwHgFQwLH1UoBN6DSQTzJeFjs5XvrB"}
+	case "ok2":
+		m["ext_config"] = map[string]interface{}{"@type": "type.googleapis.com/proto.Wallet", "address": "2VDbS7rFXXSwmrczSpNkfmv9Z1aH6BsqZPFcTbVGBdCUGmbZgK"}
 	case "empty_addr":
 		m["ext_config"] = map[string]interface{}{"@type": "type.googleapis.com/proto.Wallet"}
 	}
@@ -89,7 +91,7 @@ func (v c18Cfg) json() string {
 
 func genC18(c *Ctx) error {
 	c.ShardSize = 60
-	c.Notes["rule"] = "sequences of 1-5 initialisations on one chaincode (a token, a contract on the base contract alone, or a token with a chaincode-specific ext_config section and validator of its own, which then gets a valid / absent / invalid section): JSON configurations rendered from a structured value by field-wise mutation of a valid one (symbol / robot key / admin / issuer / setters missing, empty or ill-formatted, token section absent, unknown field, ill-typed value, truncated JSON), legacy positional argument lists for every known channel name and unknown ones (right / wrong counts, empty arguments), each sent with an admin-OU, ordinary or malformed creator, or one whose PEM data holds several certificates (the first is the caller's). After every step: Init verdict, whether __config changed, and probes of the configuration in force (is an invocation refused for lack of configuration, the symbol in the metadata query, the wallets of the token section in force, which robot key opens batchExecute, whether a swap method is refused as disabled when called directly and as a task). Non-trivial: a sequence with at least one accepted and one rejected initialisation."
+	c.Notes["rule"] = "sequences of 1-5 initialisations on one chaincode (a token, a contract on the base contract alone, or a token with a chaincode-specific ext_config section and validator of its own, which then gets a valid / absent / invalid section): JSON configurations rendered from a structured value by field-wise mutation of a valid one (symbol / robot key / admin / issuer / setters missing, empty or ill-formatted, token section absent, unknown field, ill-typed value, truncated JSON), legacy positional argument lists for every known channel name and unknown ones (right / wrong counts, empty arguments), each sent with an admin-OU, ordinary or malformed creator, or one whose PEM data holds several certificates (the first is the caller's). After every step: Init verdict, whether the stored bytes are what they have to be (untouched after a rejection, those of the request after an acceptance), and probes of the configuration in force (is an invocation refused for lack of configuration, the symbol in the metadata query, the wallets of the token section in force, which robot key opens batchExecute, whether a swap method is refused as disabled when called directly and as a task). Non-trivial: a sequence with at least one accepted and one rejected initialisation."
 	rng := c.Rng
 	symbols := []string{"TT", "T", "tt", "T1", "TT-1", "TT-", "1T", "T_T", "", "TT-A-B", "AB9", "A1-9Z", "TTé"}
 	w0 := NewWorld()
@@ -125,6 +127,7 @@ func genC18(c *Ctx) error {
 		var steps []string
 		var jsteps []interface{}
 		accepted, rejected := 0, 0
+		var lastAccepted *c18Cfg
 		for k := 1 + rng.Intn(5); k > 0; k-- {
 			creators := []struct {
 				b     []byte
@@ -141,6 +144,7 @@ func genC18(c *Ctx) error {
 				cr = creators[1+rng.Intn(len(creators)-1)]
 			}
 			var args []string
+			var jsonCfg *c18Cfg
 			var argTerm string
 			var desc interface{}
 			hasLayout := map[string]bool{"nft": true, "nmmmulti": true, "ct": true, "vote": true, "curusd": true, "otf": true}[chName]
@@ -235,12 +239,19 @@ func genC18(c *Ctx) error {
 				}
 				// the chaincode-specific section: validated by the contract that declares one, carried along by the others
 				if isExt {
-					v.Ext = []string{"ok", "ok", "ok", "ok", "ok", "ok", "", "empty_addr"}[rng.Intn(8)]
+					v.Ext = []string{"ok", "ok", "ok", "ok2", "ok2", "ok", "", "empty_addr"}[rng.Intn(8)]
 				} else if rng.Intn(6) == 0 {
 					v.Ext = []string{"ok", "empty_addr"}[rng.Intn(2)]
 				}
+				if isExt && lastAccepted != nil && rng.Intn(3) == 0 {
+					// the configuration accepted last, sent again with nothing but the chaincode-specific section changed
+					v = *lastAccepted
+					v.Ext = map[string]string{"ok": "ok2", "ok2": "ok"}[v.Ext]
+					c.Count("reinit_changing_only_the_chaincode_specific_section")
+				}
+				jsonCfg = &v
 				args = []string{v.json()}
-				decodes := v.Flaw == "" && (!isExt || v.Ext == "ok") // the contract's own section is part of what must decode
+				decodes := v.Flaw == "" && (!isExt || v.Ext == "ok" || v.Ext == "ok2") // the contract's own section is part of what must decode
 				c.Count(fmt.Sprintf("json_ext_contract_%v_section_%s", isExt, v.Ext))
 				argTerm = fmt.Sprintf("(IJson %s %s %s)", coqBool(decodes), coqBool(v.HasContract), v.term())
 				if v.Flaw == "not_json" {
@@ -251,7 +262,11 @@ func genC18(c *Ctx) error {
 			}
 			before := string(ch.State["__config"])
 			res := w.Peer.Init(chName, cr.b, args...)
-			changed := string(ch.State["__config"]) != before
+			// the stored bytes: untouched by a rejected initialisation, those of the request after an accepted one (JSON form)
+			changed := string(ch.State["__config"]) == before
+			if res.OK() {
+				changed = len(args) != 1 || !json.Valid([]byte(args[0])) || string(ch.State["__config"]) == args[0]
+			}
 			// probes
 			pr := w.Peer.Invoke(chName, w.Client.Creator, "sym")
 			refused := !pr.OK() && strings.Contains(pr.Message, "config bytes is empty")
@@ -334,6 +349,10 @@ func genC18(c *Ctx) error {
 			probe := fmt.Sprintf("(Probe %s %s %s %s %s %s %s %s)", coqBool(refused), coqStr(symbol), wallets, coqStr(robotKey), coqBool(offDirect), coqBool(offTask), coqBool(offBatchS), coqBool(offBatchM))
 			steps = append(steps, fmt.Sprintf("Step %s %s %s %s %s", coqBool(cr.admin), argTerm, coqBool(res.OK()), coqBool(changed), probe))
 			jsteps = append(jsteps, map[string]interface{}{"creator": cr.name, "arg": desc, "accepted": res.OK(), "message": res.Message, "probe_symbol": symbol, "probe_refused": refused})
+			if res.OK() && jsonCfg != nil {
+				cp := *jsonCfg
+				lastAccepted = &cp
+			}
 			if res.OK() {
 				accepted++
 				c.Count("init_accepted")
